@@ -25,6 +25,10 @@ def c17(tier, rng, gw):
             q.append(f"ctb {c} {s} {gw}")
     for k in range(0, 64):
         q.append(f"bmtc {(1 << k) - 1}")
+    # TableLayout::new::<T>() for concrete element types (sizes above / below the group width with small and
+    # large alignments, zero-sized and over-aligned types)
+    for i in range(18):
+        q.append(f"tlnew {i}")
     # layouts
     sz = list(range(0, 65)) + [200, 4096, 1 << 20, ISIZE_MAX // 2 - 1, ISIZE_MAX // 2, ISIZE_MAX // 2 + 1]
     aligns = [1 << a for a in range(0, 13)]
